@@ -13,6 +13,7 @@ From PowHsm Require Import Gen.SrcM.
 From PowHsm Require Import Proofs.SrcEquivSignProtoM.
 From PowHsm Require Import Proofs.SrcEquivGateM.
 From PowHsm Require Import Proofs.SrcLiftGate.
+From PowHsm Require Import Proofs.SrcEquivGateV1M.
 Open Scope N_scope.
 
 (* a request the gate rejects is answered {errorcode: code} and the world (script, trace, flag) is untouched: no exchange with the device at all *)
@@ -367,5 +368,16 @@ Theorem C02_source_whole_request_path_is_model :
          srcm_HSM2ProtocolLedger____internal_handle_request fuel cm init self (of_json request) w =
          SrcEquivDongleM.mres of_json (handle_request keccak kind V5 request w).
 Proof. exact (@srcm_handle_request_v5_ok). Qed.
+
+(* the whole legacy (version 1) request path of the source = the model's handle_request in mode V1 on every request and world *)
+Theorem C02_source_whole_request_path_v1_is_model :
+  forall (keccak : bytes -> bytes) (kind : dongle_kind) (init : pm pv)
+           (cm : string -> pv -> list pv -> pr pv) (self : pv) (request : json) 
+           (w : world),
+         SrcEquivProtoM.init_ok kind init ->
+         path_oracle_ok_v1 cm ->
+         srcm_HSM1ProtocolLedger____internal_handle_request cm init self (of_json request) w =
+         SrcEquivDongleM.mres of_json (handle_request keccak kind V1 request w).
+Proof. exact (@srcm_handle_request_v1_ok). Qed.
 
 Example C02_nonvacuous : True. Proof. exact I. Qed. (* 24 concrete classifications closed by vm_compute in Proofs/C02.v *)
